@@ -22,7 +22,7 @@ use lightmotif::abc::{Alphabet, Background, ComplementableAlphabet, Dna, Protein
 use lightmotif::dense::DenseMatrix;
 use lightmotif::num::{U32, U4};
 use lightmotif::pli::{Pipeline, Stripe};
-use lightmotif::pwm::{CountMatrix, FrequencyMatrix, ScoringMatrix, WeightMatrix};
+use lightmotif::pwm::{Correlation, CountMatrix, FrequencyMatrix, ScoringMatrix, WeightMatrix};
 use lightmotif::seq::{EncodedSequence, StripedSequence};
 use lmh::*;
 use std::collections::HashMap;
@@ -368,6 +368,200 @@ fn run_raw<A: Alphabet>(f: &HashMap<String, String>) -> String {
     out
 }
 
+// ---------------------------------------------------------------- C09 kind=stat (round 3)
+
+/// Observations of the `Correlation` trait on one matrix type: `<tag>auto` (one value per
+/// delay), `<tag>cross` / `<tag>crossr` (self vs other, other vs self), `<tag>dot` /
+/// `<tag>norm` (one value per (i, j) pair; norm of row i).
+fn corr_obs<M: Correlation>(
+    tag: &str,
+    m: &M,
+    other: &M,
+    delays: &[usize],
+    pairs: &[(usize, usize)],
+    out: &mut String,
+) {
+    let j = |v: Vec<String>| v.join(",");
+    write!(
+        out,
+        " {t}auto={} {t}cross={} {t}crossr={} {t}dot={} {t}norm={}",
+        j(delays.iter().map(|&d| fmt_opt_f32(no_panic(|| m.auto_correlation(d)))).collect()),
+        fmt_opt_f32(no_panic(|| m.cross_correlation(other))),
+        fmt_opt_f32(no_panic(|| other.cross_correlation(m))),
+        j(pairs.iter().map(|&(a, b)| fmt_opt_f32(no_panic(|| m.dot(other, a, b)))).collect()),
+        j(pairs.iter().map(|&(a, _)| fmt_opt_f32(no_panic(|| m.norm(a)))).collect()),
+        t = tag
+    )
+    .unwrap();
+}
+
+fn parse_pairs(s: &str) -> Vec<(usize, usize)> {
+    if s.is_empty() {
+        return vec![];
+    }
+    s.split(',')
+        .map(|p| {
+            let mut it = p.split(':');
+            (it.next().unwrap().parse().unwrap(), it.next().unwrap().parse().unwrap())
+        })
+        .collect()
+}
+
+/// entropy / consensus / correlation / information content / 2^x conversion
+fn run_stat<A: Alphabet>(f: &HashMap<String, String>) -> String {
+    let mut out = String::new();
+    write!(out, " prof={}", if cfg!(debug_assertions) { "dev" } else { "rel" }).unwrap();
+    let cm = match counts_from::<A>(f, &mut out) {
+        Some(cm) => cm,
+        None => return out,
+    };
+    let rows2 = parse_matrix(f.get("counts2").map(|s| s.as_str()).unwrap_or(""));
+    let cm2 = match no_panic(|| CountMatrix::<A>::new(cmatrix::<A>(&rows2))) {
+        Some(Ok(c)) => c,
+        _ => {
+            out.push_str(" cm2=P");
+            return out;
+        }
+    };
+    let delays: Vec<usize> = parse_u64s(f.get("delays").map(|s| s.as_str()).unwrap_or(""))
+        .into_iter()
+        .map(|x| x as usize)
+        .collect();
+    let pairs = parse_pairs(f.get("dij").map(|s| s.as_str()).unwrap_or(""));
+    // entropy, consensus
+    match no_panic(|| cm.entropy()) {
+        Some(e) => write!(out, " ent={}", fmt_f32s(&e)).unwrap(),
+        None => out.push_str(" ent=P"),
+    }
+    match no_panic(|| cm.consensus()) {
+        Some(c) => write!(out, " cons=ok:{}", c).unwrap(),
+        None => out.push_str(" cons=P"),
+    }
+    // logarithm oracle for the entropy terms: p = n as f32 / sum as f32 with the wrapped u32 sum
+    {
+        let m = cm.matrix();
+        let mut ins = vec![];
+        let mut outs = vec![];
+        for i in 0..m.rows() {
+            let sum = m[i].iter().fold(0u32, |a, &b| a.wrapping_add(b));
+            for &n in m[i].iter() {
+                let p = n as f32 / sum as f32;
+                ins.push(p.to_bits().to_string());
+                outs.push(p.log2().to_bits().to_string());
+            }
+        }
+        write!(out, " ELi={} ELo={}", ins.join(","), outs.join(",")).unwrap();
+    }
+    corr_obs("c", &cm, &cm2, &delays, &pairs, &mut out);
+    // frequencies
+    let (fq, fq2) = match (to_freq_with::<A>(&cm, &f["ps"]), to_freq_with::<A>(&cm2, &f["ps"])) {
+        (Some(a), Some(b)) => (a, b),
+        _ => {
+            out.push_str(" fq=P");
+            return out;
+        }
+    };
+    write!(out, " fq={} fq2={}", fmt_fm(fq.matrix()), fmt_fm(fq2.matrix())).unwrap();
+    corr_obs("f", &fq, &fq2, &delays, &pairs, &mut out);
+    // weights
+    let bg = match make_bg::<A>(&f["bg"]) {
+        Some(Ok(b)) => b,
+        _ => {
+            out.push_str(" bg=Err");
+            return out;
+        }
+    };
+    let (wm, wm2) = match (no_panic(|| fq.to_weight(bg.clone())), no_panic(|| fq2.to_weight(bg.clone()))) {
+        (Some(a), Some(b)) => (a, b),
+        _ => {
+            out.push_str(" wm=P");
+            return out;
+        }
+    };
+    write!(
+        out,
+        " wm={} wm2={} wbg={} wic={}",
+        fmt_fm(wm.matrix()),
+        fmt_fm(wm2.matrix()),
+        fmt_f32s(wm.background().frequencies()),
+        fmt_opt_f32(no_panic(|| wm.information_content()))
+    )
+    .unwrap();
+    {
+        // oracle: log2 of x / b for every weight cell
+        let m = wm.matrix();
+        let b = wm.background().frequencies();
+        let mut ins = vec![];
+        let mut outs = vec![];
+        for i in 0..m.rows() {
+            for (j, &x) in m[i].iter().enumerate() {
+                let q = x / b[j];
+                ins.push(q.to_bits().to_string());
+                outs.push(q.log2().to_bits().to_string());
+            }
+        }
+        write!(out, " WLi={} WLo={}", ins.join(","), outs.join(",")).unwrap();
+    }
+    corr_obs("w", &wm, &wm2, &delays, &pairs, &mut out);
+    // scores (base 2), information content, 2^x
+    let (sm, sm2) = match (no_panic(|| wm.to_scoring()), no_panic(|| wm2.to_scoring())) {
+        (Some(a), Some(b)) => (a, b),
+        _ => {
+            out.push_str(" sm=P");
+            return out;
+        }
+    };
+    write!(
+        out,
+        " sm={} sm2={} L2={} L22={} sic={} P2={}",
+        fmt_fm(sm.matrix()),
+        fmt_fm(sm2.matrix()),
+        map_fm(wm.matrix(), |x| x.log2()),
+        map_fm(wm2.matrix(), |x| x.log2()),
+        fmt_opt_f32(no_panic(|| sm.information_content())),
+        map_fm(sm.matrix(), |x| 2f32.powf(x))
+    )
+    .unwrap();
+    corr_obs("s", &sm, &sm2, &delays, &pairs, &mut out);
+    match no_panic(|| WeightMatrix::<A>::from(sm.clone())) {
+        Some(w) => write!(out, " w2={} w2bg={}", fmt_fm(w.matrix()), fmt_f32s(w.background().frequencies())).unwrap(),
+        None => out.push_str(" w2=P"),
+    }
+    // arbitrary scoring matrix: information content and 2^x on exotic cells
+    if let Some(raw) = f.get("sm") {
+        let data = fmatrix::<A>(&parse_matrix(raw));
+        let r = ScoringMatrix::<A>::new(bg.clone().unwrap_or_default(), data);
+        write!(
+            out,
+            " rP2={} rsic={}",
+            map_fm(r.matrix(), |x| 2f32.powf(x)),
+            fmt_opt_f32(no_panic(|| r.information_content()))
+        )
+        .unwrap();
+        match no_panic(|| WeightMatrix::<A>::from(r.clone())) {
+            Some(w) => write!(out, " rw2={}", fmt_fm(w.matrix())).unwrap(),
+            None => out.push_str(" rw2=P"),
+        }
+        corr_obs("r", &r, &sm, &delays, &pairs, &mut out);
+    }
+    // discrete matrices: the u8 instantiation of the trait, on the cells observed
+    match (no_panic(|| sm.to_discrete()), no_panic(|| sm2.to_discrete())) {
+        (Some(d), Some(d2)) => {
+            let show = |d: &lightmotif::pwm::DiscreteMatrix<A>| {
+                let m = d.matrix();
+                (0..m.rows())
+                    .map(|i| m[i].iter().map(|x| x.to_string()).collect::<Vec<_>>().join(","))
+                    .collect::<Vec<_>>()
+                    .join(";")
+            };
+            write!(out, " dd={} dd2={}", show(&d), show(&d2)).unwrap();
+            corr_obs("d", &d, &d2, &delays, &pairs, &mut out);
+        }
+        _ => out.push_str(" dd=P"),
+    }
+    out
+}
+
 fn fmt_bg_result<A: Alphabet>(r: Option<Result<Background<A>, lightmotif::err::InvalidData>>) -> String {
     match r {
         None => " r=P".to_string(),
@@ -380,6 +574,7 @@ fn run_c09<A: Alphabet>(f: &HashMap<String, String>) -> String {
     match f["k"].as_str() {
         "pipe" => run_pipe::<A>(f),
         "raw" => run_raw::<A>(f),
+        "stat" => run_stat::<A>(f),
         "bgnew" => {
             let arr = farray::<A>(&parse_u32s(&f["v"]));
             fmt_bg_result(no_panic(|| Background::<A>::new(arr)))
@@ -867,11 +1062,167 @@ fn gen_xpos(rng: &mut Rng, l: usize) -> String {
     }
 }
 
+/// count rows aimed at entropy / consensus / correlation edge cases
+fn gen_stat_row(rng: &mut Rng, k: usize) -> Vec<u64> {
+    let mut v = vec![0u64; k];
+    match rng.below(12) {
+        // all-zero row: entropy of 0/0, consensus = last column, norm 0 -> correlation NaN
+        0 => {}
+        // one symbol only: entropy 0
+        1 => v[rng.below(k as u64) as usize] = 1 + rng.below(50),
+        // two equal counts: entropy exactly 1.0 (the lowercase threshold), tie for the consensus
+        2 => {
+            let c = 1 + rng.below(40);
+            let a = rng.below(k as u64) as usize;
+            let b = rng.below(k as u64) as usize;
+            v[a] = c;
+            v[b] = c;
+        }
+        // all equal (maximal entropy, every column tied)
+        3 => {
+            let c = 1 + rng.below(9);
+            let upto = if rng.chance(1, 2) { k } else { k - 1 };
+            for x in v.iter_mut().take(upto) {
+                *x = c
+            }
+        }
+        // near the threshold: (c, c-1), (c, c, 1), ...
+        4 => {
+            let c = 2 + rng.below(30);
+            v[rng.below(k as u64) as usize] = c;
+            v[rng.below(k as u64) as usize] += c - 1;
+            if rng.chance(1, 2) {
+                v[rng.below(k as u64) as usize] += 1;
+            }
+        }
+        // wildcard dominant
+        5 => {
+            for x in v.iter_mut() {
+                *x = rng.below(4)
+            }
+            v[k - 1] = 4 + rng.below(10);
+        }
+        // huge counts: rounding of `as f32`, and u32 overflow of the row sum
+        6 => {
+            for x in v.iter_mut() {
+                if rng.chance(1, 3) {
+                    *x = *rng.pick(&[16777217u64, 4294967295, 2147483648, 1000000, 33554433, 2147483647])
+                }
+            }
+        }
+        _ => {
+            let hi = *rng.pick(&[3u64, 10, 100, 1000]);
+            for (j, x) in v.iter_mut().enumerate() {
+                *x = if j == k - 1 && !rng.chance(1, 4) { 0 } else { rng.below(hi) }
+            }
+        }
+    }
+    v
+}
+
+fn fmt_rows(rows: &[Vec<u64>]) -> String {
+    rows.iter()
+        .map(|r| r.iter().map(|x| x.to_string()).collect::<Vec<_>>().join(","))
+        .collect::<Vec<_>>()
+        .join(";")
+}
+
+/// a valid background: None / uniform / dyadic (zero entries, wildcard mass) / from_counts /
+/// tiny non-zero entries (1e-8, 2^-149) absorbed by the sum
+fn gen_valid_bg(rng: &mut Rng, k: usize) -> String {
+    match rng.below(8) {
+        0 => "none".to_string(),
+        1 => "uni".to_string(),
+        2 | 3 | 4 => {
+            let den = *rng.pick(&[4u64, 16, 64, 256]);
+            let wild_mass = rng.chance(1, 4);
+            let zeros = *rng.pick(&[0u64, 0, 30]);
+            format!("new:{}", fmt_f32s(&dyadic_bg(rng, k, den, wild_mass, zeros)))
+        }
+        5 => tiny_bg(rng, k),
+        _ => {
+            let v: Vec<String> = (0..k)
+                .map(|j| if j == k - 1 && !rng.chance(1, 4) { "0".to_string() } else { (1 + rng.below(1000)).to_string() })
+                .collect();
+            format!("cnt:{}", v.join(","))
+        }
+    }
+}
+
+/// dyadic background whose LAST regular zero entry (placed after the big ones so that the
+/// running sum absorbs it) is replaced by a tiny non-zero value: accepted by Background::new
+/// when 1.0 + tiny == 1.0 in binary32
+fn tiny_bg(rng: &mut Rng, k: usize) -> String {
+    let mut v = dyadic_bg(rng, k, 64, false, 40);
+    let tiny = *rng.pick(&[1.0e-8f32, 1.0e-8, 2.0e-8, 1.0e-10, 1.0e-30, f32::from_bits(1), 5.0e-8]);
+    let zeros: Vec<usize> = (0..k).filter(|&j| v[j] == 0.0).collect();
+    if !zeros.is_empty() {
+        // a late position is absorbed by the partial sum, an early one is not always
+        let j = if rng.chance(3, 4) { *zeros.last().unwrap() } else { *rng.pick(&zeros) };
+        v[j] = tiny;
+    }
+    format!("new:{}", fmt_f32s(&v))
+}
+
+fn gen_stat(rng: &mut Rng, id: usize, a: &str, alpha: &str, maxw: usize) -> String {
+    let k = alpha.len();
+    let rows = *rng.pick(&[0usize, 1, 2, 3, 4, 6, 8, 12]).min(&maxw);
+    let mut m: Vec<Vec<u64>> = (0..rows).map(|_| gen_stat_row(rng, k)).collect();
+    // periodic matrices: auto_correlation(period) = 1
+    if rows >= 4 && rng.chance(1, 4) {
+        let p = rows / 2;
+        for i in p..rows {
+            m[i] = m[i - p].clone();
+        }
+    }
+    let src = if rng.chance(1, 5) {
+        format!("seqs={}", gen_seqs(rng, alpha, maxw.min(12), false))
+    } else {
+        format!("counts={}", fmt_rows(&m))
+    };
+    // second matrix: the same, a row permutation, scaled, fewer / more rows, unrelated
+    let m2: Vec<Vec<u64>> = match rng.below(6) {
+        0 => m.clone(),
+        1 => m.iter().rev().cloned().collect(),
+        2 => m.iter().map(|r| r.iter().map(|x| (x * 3).min(4294967295)).collect()).collect(),
+        3 => m.iter().take(rows / 2).cloned().collect(),
+        _ => {
+            let r2 = rng.below(rows as u64 + 3) as usize;
+            (0..r2).map(|_| gen_stat_row(rng, k)).collect()
+        }
+    };
+    let mut delays = vec![0usize, 1, rows / 2, rows.saturating_sub(1), rows, rows + 1 + rng.below(5) as usize];
+    delays.dedup();
+    let mut pairs = vec![];
+    for _ in 0..3 {
+        pairs.push(format!("{}:{}", rng.below(rows as u64 + 1), rng.below(m2.len() as u64 + 1)));
+    }
+    if rng.chance(1, 3) {
+        pairs.push(format!("{}:{}", rows + rng.below(3) as usize, m2.len() + rng.below(3) as usize));
+    }
+    let rr = rng.below(4) as usize;
+    format!(
+        "g{} k=stat a={} {} counts2={} ps={} bg={} delays={} dij={} sm={}",
+        id,
+        a,
+        src,
+        fmt_rows(&m2),
+        gen_pseudo(rng, k),
+        gen_valid_bg(rng, k),
+        delays.iter().map(|d| d.to_string()).collect::<Vec<_>>().join(","),
+        pairs.join(","),
+        gen_raw(rng, k, rr)
+    )
+}
+
 fn gen_c09(rng: &mut Rng, id: usize, tier: &str) -> String {
     let prot = rng.chance(1, 3);
     let (a, alpha) = if prot { ("prot", Protein::as_str()) } else { ("dna", Dna::as_str()) };
     let k = alpha.len();
     let maxw = if tier == "thorough" { 40 } else { 20 };
+    if rng.chance(3, 20) {
+        return gen_stat(rng, id, a, alpha, maxw);
+    }
     let kind = rng.below(100);
     if kind < 62 {
         let src = if rng.chance(3, 5) {
